@@ -479,6 +479,30 @@ func runOneSimLimit(c simLimCase) (fails []monFail, info string) {
 				if err := <-got; err != nil && context.Cause(conn.Context()) == nil {
 					fail(c.key(), "data sent by the peer just below the advertised idle timeout did not reach the client's application: "+err.Error())
 				}
+				// second phase (the game's EvSilence on the real run loop, virtual time): silence from now on;
+				// the client must not give up before the idle timeout its peer derives from the wire has
+				// elapsed since the last packet it received. (Giving up later is C17's subject.)
+				if context.Cause(conn.Context()) == nil {
+					time.Sleep(200 * time.Millisecond)
+					lastToClient := time.Duration(0)
+					e.Router.mu.Lock()
+					for _, d := range e.Router.log {
+						if d.Dir == 1 && d.Act == "deliver" {
+							lastToClient = d.Time
+						}
+					}
+					e.Router.mu.Unlock()
+					select {
+					case <-conn.Context().Done():
+						silent := time.Since(e.Start) - lastToClient
+						note("second phase: the client gave up %v after the last packet it was sent (%v)", silent, context.Cause(conn.Context()))
+						if silent < idleExpect-10*time.Millisecond {
+							fail(c.key(), fmt.Sprintf("the client gave up the connection after %v of silence, before the idle timeout %v its peer derives from the advertised value", silent, idleExpect))
+						}
+					case <-time.After(idleExpect + 10*time.Second):
+						note("second phase: the client is still there %v after the idle timeout", 10*time.Second)
+					}
+				}
 			}
 			waitLimit = time.Second
 		}
